@@ -17,6 +17,18 @@ def run_kani(pid, tier, records, info):
     if not hs:
         return
     res, raw, cmd, wall = kani_run.run_batch(hs)
+    # a harness without a verdict (CBMC killed / out of memory / timed out under load) is retried once with little parallelism before the
+    # run is declared undecided
+    flaky = [h for h in hs if res[h.full]["status"] in ("tool_error", "missing", "unknown")]
+    if flaky and len(flaky) <= 12:
+        res2, raw2, cmd2, wall2 = kani_run.run_batch(flaky, jobs=2, use_cache=False)
+        kani_run._cache_store(res2)
+        for h in flaky:
+            if res2[h.full]["status"] in ("success", "failed"):
+                res[h.full] = res2[h.full]
+        raw += "\n--- retry of harnesses without a verdict ---\n" + raw2
+        wall += wall2
+        info["kani_retried"] = [h.full for h in flaky]
     info["checker_cmds"].append(f"(cd {REPO} && REACTIVE_MUTINY_VERIF_DIR={VERIF} CARGO_TARGET_DIR=<cache> {cmd})")
     info["kani_wall_s"] = round(wall, 1)
     write(os.path.join(CACHE, "logs", f"{pid}-kani.log"), raw)
